@@ -82,3 +82,107 @@ func runC13Pad(k *gctx) {
 		}}},
 	})
 }
+
+// runC13GatherStale (R.res.stale): in gather, a value computed from a lookup in
+// the per-branch resource set (`new2 := … !resources[o.secondary]`) is not used
+// after that set was replaced by a fresh one (`resources = map…{}`) without
+// being recomputed. The set says which shared dictionaries the CURRENT branch
+// node already lists; a flag computed against the previous branch's set makes the
+// new branch omit a dictionary its first chunk needs, so resourceToTag writes
+// "no dictionary" for a chunk compressed with one: Close returns nil and the
+// Reader fails with Z_NEED_DICT at that chunk (independently seeded change C13-5).
+func runC13GatherStale(k *gctx) {
+	c := k.c
+	fl := k.flow("R.res.stale", "lib/rac", "", "gather")
+	if fl == nil {
+		return
+	}
+	info := fl.F.Info()
+	// the resource set: the local of map type that is reassigned inside the loops
+	var res types.Object
+	for o := range fl.Defs() {
+		if v, ok := o.(*types.Var); ok {
+			if _, isMap := v.Type().Underlying().(*types.Map); isMap {
+				res = o
+			}
+		}
+	}
+	if res == nil {
+		c.Undecided("R.res.stale", fl.F.Name(), "gather keeps the per-branch resource set in a local map", "no map-typed local")
+		return
+	}
+	// derived locals: defined by an expression that indexes the set
+	derived := map[types.Object]bool{}
+	for o, defs := range fl.Defs() {
+		for _, d := range defs {
+			uses := false
+			ast.Inspect(d, func(m ast.Node) bool {
+				if ie, ok := m.(*ast.IndexExpr); ok && fl.Obj(ie.X) == res {
+					uses = true
+				}
+				return true
+			})
+			if uses {
+				derived[o] = true
+			}
+		}
+	}
+	c.Floor("R.res.stale", "locals of gather computed from a lookup in the resource set", len(derived), 2)
+	isReset := func(n ast.Node) bool {
+		as, ok := n.(*ast.AssignStmt)
+		if !ok || as.Tok != token.ASSIGN || len(as.Lhs) != len(as.Rhs) {
+			return false
+		}
+		for _, l := range as.Lhs {
+			if fl.Obj(l) == res {
+				return true
+			}
+		}
+		return false
+	}
+	nReset := 0
+	ast.Inspect(fl.F.Decl.Body, func(m ast.Node) bool {
+		if isReset(m) {
+			nReset++
+		}
+		return true
+	})
+	c.Floor("R.res.reset", "replacements of the resource set by a fresh one in gather", nReset, 2)
+	k.mustPass("R.res.stale", fl.F.Name()+"[after resources = map…{}]",
+		"after the per-branch resource set is replaced, no flag computed from a lookup in the previous set is used before it is recomputed (the new branch would omit a dictionary that its first chunk needs: a file that Close reported as written fails to decode with 'need dictionary')",
+		fl, core.Query{
+			Start: isReset,
+			Exit: func(n ast.Node) bool {
+				// a use of a derived local that is not its own definition
+				if as, ok := n.(*ast.AssignStmt); ok && as.Tok == token.DEFINE {
+					for _, l := range as.Lhs {
+						if derived[fl.Obj(l)] {
+							return false
+						}
+					}
+				}
+				used := false
+				ast.Inspect(n, func(m ast.Node) bool {
+					if id, ok := m.(*ast.Ident); ok && derived[info.Uses[id]] {
+						used = true
+					}
+					return !used
+				})
+				_, isIf := n.(*ast.IfStmt)
+				_, isFor := n.(*ast.ForStmt)
+				return used && !isIf && !isFor
+			},
+			Events: []core.Event{{Node: func(n ast.Node) bool {
+				as, ok := n.(*ast.AssignStmt)
+				if !ok {
+					return false
+				}
+				for _, l := range as.Lhs {
+					if derived[fl.Obj(l)] {
+						return true // recomputed (all derived flags are defined together per node)
+					}
+				}
+				return false
+			}}},
+		})
+}
